@@ -3,7 +3,7 @@
    Paths are sequences of components over {"x", "y", ".", "..", ""} ("" = a doubled slash).     *)
 EXTENDS Naturals, Sequences, SequencesExt, FiniteSets, TLC, Json
 CONSTANTS Mode, D
-Comp == {"x", "y", ".", "..", ""}
+Comp == {"x", "y", "n", ".", "..", ""}          \* "n": a directory that does not exist
 RECURSIVE NormStep(_, _)
 NormStep(stack, rest) ==
   IF rest = <<>> THEN stack
@@ -19,7 +19,7 @@ ASSUME NormIdempotent
 ASSUME NormClean
 
 \* ---- (c) [checksums] entries in sorted option order; kinds
-Kinds == {"typed_sha256", "typed_md5", "bare32", "bare40", "bare64", "bare48", "bare0", "multicolon"}
+Kinds == {"typed_sha256", "typed_md5", "bare32", "bare40", "bare64", "bare48", "bare0", "multicolon", "bare31", "bare33", "bare41", "bare65"}
 Own(k) == CASE k = "typed_sha256" -> "sha256" [] k = "typed_md5" -> "md5" [] k = "bare32" -> "md5" [] k = "bare40" -> "sha1"
             [] k = "bare64" -> "sha256" [] OTHER -> "reject"
 Sections == UNION {[1..n -> Kinds] : n \in 1..3}
